@@ -274,7 +274,7 @@ protected:
     for (auto p : exp) {
       Wt coeff(ntow::convert(p.first, overflow));
       if (overflow) {
-        continue;
+        return;
       }
 
       variable_t y(p.second);
@@ -288,7 +288,7 @@ protected:
         }
         residual += ntow::convert(*(y_val.number()), overflow) * coeff;
         if (overflow) {
-          continue;
+          return;
         }
 
       } else {
@@ -303,7 +303,7 @@ protected:
         } else {
           Wt ymax(ntow::convert(*(y_val.number()), overflow));
           if (overflow) {
-            continue;
+            return;
           }
           residual += ymax * coeff;
           terms.push_back({y, ymax});
@@ -365,7 +365,7 @@ protected:
     for (auto p : exp) {
       Wt coeff(ntow::convert(p.first, overflow));
       if (overflow) {
-        continue;
+        return;
       }
       if (coeff > Wt(0)) {
         variable_t y(p.second);
@@ -379,7 +379,7 @@ protected:
         } else {
           Wt ymin(ntow::convert(*(y_lb.number()), overflow));
           if (overflow) {
-            continue;
+            return;
           }
           exp_ub -= ymin * coeff;
           pos_terms.push_back({{coeff, y}, ymin});
@@ -396,7 +396,7 @@ protected:
         } else {
           Wt ymax(ntow::convert(*(y_ub.number()), overflow));
           if (overflow) {
-            continue;
+            return;
           }
           exp_ub -= ymax * coeff;
           neg_terms.push_back({{-coeff, y}, ymax});
